@@ -6,5 +6,10 @@ for n in $names; do
   prop=$(python3 -c "import json;print(json.load(open('seeded/$n/meta.json'))['property'])")
   if [ ! -f rules/$(echo $prop | tr A-Z a-z).py ]; then echo "NOCHECK  $n ($prop)"; continue; fi
   out=$(MUT_TAIL=4 tools/mutant.sh "$prop" "seeded/$n/patch.diff" 2>&1); rc=$?
+  kind=$(python3 -c "import json;print(json.load(open('seeded/$n/meta.json')).get('kind','breaking'))")
+  if [ "$kind" = "benign" ]; then
+    if [ $rc -eq 0 ]; then echo "SILENT   $n (benign refactoring)"; elif [ $rc -eq 3 ]; then echo "PATCHFAIL $n"; else echo "FALSE-ALARM $n :: $(echo "$out" | grep -m1 '^  \[' | cut -c1-260)"; fi
+    continue
+  fi
   if [ $rc -eq 1 ]; then echo "CAUGHT   $n :: $(echo "$out" | grep -m1 '^  \[' | cut -c1-260)"; elif [ $rc -eq 3 ]; then echo "PATCHFAIL $n"; else echo "MISSED   $n (rc=$rc)"; fi
 done
